@@ -33,9 +33,9 @@ ASSUMPTIONS = ["positional-only parameters are not generated",
 ANNOTATIONS = ["", "", ": int", ": str", ": float", ": typing.Optional[int]", ": typing.List[str]", ": 'Config'", ": None",
                ": typing.Dict[str, typing.Any]", ": bool", ": LocalCls", ": Outer", ": Outer.Inner", ": bytes",
                # annotations whose text carries characters that mean something to string formatting
-               ": int | None", ": list[int]", ": dict[str, int]", ": typing.Literal['50%', '100%']", ": 'typing.Literal[\"%s\"]'", ": typing.Literal['{0}', '%(n)d']"]
+               ": int | None", ": list[int]", ": dict[str, int]", ": typing.LiteralString", ": typing.Any", ": typing.Hashable", ": typing.Literal['50%', '100%']", ": 'typing.Literal[\"%s\"]'", ": typing.Literal['{0}', '%(n)d']"]
 RETURNS = ["", "", " -> int", " -> str", " -> None", " -> typing.List[int]", " -> 'Config'", " -> typing.Optional[str]", " -> bool",
-           " -> LocalCls", " -> Outer.Inner", " -> typing.Literal['%d%%']", " -> [int]", " -> (int, str)", " -> int | None", " -> list[str]", " -> 'typing.Literal[\"{}\", \"%\"]'"]
+           " -> LocalCls", " -> Outer.Inner", " -> typing.Literal['%d%%']", " -> [int]", " -> (int, str)", " -> int | None", " -> list[str]", " -> typing.NoReturn", " -> typing.Self", " -> 'typing.Literal[\"{}\", \"%\"]'"]
 
 
 def gen_method(rng, key):
@@ -67,7 +67,7 @@ def gen_method(rng, key):
     ret = rng.choice(RETURNS)
     if rng.random() < 0.08:
         # no named first parameter at all: the configuration arrives as the first of *args (the usual shape of a wrapper)
-        parts = [rng.choice(["*args", "*args", "*items"])] + ([p for p in parts if not p.startswith("*") and "=" in p and False] or []) + (
+        parts = [rng.choice(["*args", "*args", "*items"])] + rng.choice([[], [], ["retries=3"], ["flag: bool = False", "n"]]) + (
             ["**kwargs"] if rng.random() < 0.7 else [])
     src = "def f(%s)%s:\n    return None\n" % (", ".join(parts), ret)
     if rng.random() < 0.15:
